@@ -372,7 +372,15 @@ ATOMIC_KINDS = [
     ("flag", 2, ["flag"]),
     ("ptr", 65536, ["ptr"]),
     ("float", 65536, ["f32", "f64"]),
+    # inexact floating values: the TLA+ values are indices into the IEEE tables of Atomic_fgen (vlib/ieee.py)
+    ("fx32", None, ["b32"]),
+    ("fx64", None, ["b64"]),
 ]
+
+
+class _FxBase:
+    def __init__(self, bits):
+        self.bits = bits
 
 
 def _limbs(v, base):
@@ -380,6 +388,8 @@ def _limbs(v, base):
         return None
     if isinstance(v, str):
         return v
+    if isinstance(base, _FxBase):
+        return base.bits[v[0]]
     n = 0
     for i, l in enumerate(v):
         n += l * (base ** i)
@@ -394,7 +404,13 @@ def check_atomic(rep, tier, want_backends=("fiber", "thread", "std")):
     exe = core.build_harness()
     wd = core.workdir("Atomic")
     total = 0
+    from . import ieee
+    with open(os.path.join(wd, "Atomic_fgen.tla"), "w") as f:
+        f.write(ieee.tla_module(3))  # regenerated on every run (the committed copy in spec/ is the same text)
     for stem, base, types in ATOMIC_KINDS:
+        if base is None:
+            # values are table indices: the harness gets the bit patterns
+            base = _FxBase(ieee.table(32 if stem == "fx32" else 64, 3)["bits"])
         cfg = "Atomic_%s_%s.cfg" % (stem, tier)
         seqs, r = tlc_programs(rep, wd, "Atomic.tla", cfg, tag="SEQ", what="std::atomic reference semantics, %s, all "
                                "operation sequences up to the depth bound" % stem)
@@ -448,7 +464,7 @@ def check_atomic(rep, tier, want_backends=("fiber", "thread", "std")):
                     ret = e_ret
                     rep.extra["assign_unsupported_by_wrapper"] = rep.extra.get("assign_unsupported_by_wrapper", 0) + 1
                 if (ret, val, exp) != (e_ret, e_val, e_exp):
-                    kind = "pointer" if t == "ptr" else "floating" if t.startswith("f") else "bool" if t == "bool" else "integer"
+                    kind = "pointer" if t == "ptr" else "floating" if t[0] in "fb" and t != "bool" and t != "flag" else "bool" if t == "bool" else "integer"
                     what = []
                     if ret != e_ret:
                         what.append("returned %s, std::atomic returns %s" % (ret, e_ret))
